@@ -4,6 +4,7 @@ package httpendpoint
 
 import (
 	"context"
+	"time"
 
 	"github.com/rs/zerolog"
 
@@ -26,6 +27,15 @@ func VerifNewPoller(processor rule.SetProcessor, url string) (*VerifProvider, Ru
 // Poll runs one watch cycle exactly as the scheduled job does.
 func (v *VerifProvider) Poll(cch cache.Cache, rsf RuleSetFetcher) error {
 	ctx := zerolog.Nop().WithContext(cache.WithContext(context.Background(), cch))
+
+	return v.p.watchChanges(ctx, rsf)
+}
+
+// PollWithin runs one watch cycle whose context expires after d (as the deadline of a scheduled job or of the
+// endpoint's client does).
+func (v *VerifProvider) PollWithin(cch cache.Cache, rsf RuleSetFetcher, d time.Duration) error {
+	ctx, cancel := context.WithTimeout(zerolog.Nop().WithContext(cache.WithContext(context.Background(), cch)), d)
+	defer cancel()
 
 	return v.p.watchChanges(ctx, rsf)
 }
